@@ -215,6 +215,19 @@ theorem eval_good (env : Env) : ∀ f s p, Good s (eval env f s p).1 := by
     | getCached key k =>
       simp only [eval]
       exact (good_record s _ _).trans (ih _ _)
+    | getOrInsert key v k =>
+      simp only [eval]
+      refine (good_record s (recordsAsset (env.types key.ty).hot env.hasReloader) (.asset key)).trans ?_
+      generalize s.record _ _ = s'
+      cases hl : s'.lookup key with
+      | some c =>
+        simp only []
+        exact Good.trans (b := s'.handOut key.ty) ⟨St.Le.of_map_eq rfl, ⟨rfl, rfl⟩⟩ (ih _ _)
+      | none =>
+        simp only []
+        refine Good.trans ⟨?_, ?_⟩ (ih _ _)
+        · exact (St.insertKeepFirst_le s' key _).trans (St.Le.of_map_eq rfl)
+        · simp [SameShape, St.own]
     | tick k =>
       simp only [eval]
       exact Good.trans (b := { s with loads := s.loads + 1 }) ⟨St.Le.of_map_eq rfl, ⟨rfl, rfl⟩⟩ (ih _ _)
